@@ -605,13 +605,60 @@ for _c, _n, _d in ((K1, 'Kenamond1', K1_DEF), (K2, 'Kenamond2', K2_DEF), (K3, 'K
     _cat(_c, _n, _d, dict(bogus=1.0), 'reject', 'unknown-parameter')
 
 
+def _random_entry(rng, name):
+    """a random VALID parameter set of the class, or one with exactly one documented restriction violated
+    (by a random amount, or exactly at the boundary where the boundary is documented as invalid)"""
+    amount = rng.choice([0.0, rng.uniform(0.0, 1.0), rng.uniform(0.0, 10.0)])
+    if name == 'Kenamond1':
+        p, cls = k1_params(rng), K1
+        viol = [('D>0', dict(D=-amount)), ('geometry', dict(geometry=rng.choice([0, 1, 4, 5, 2.5]))),
+                ('len(x_d)=geometry', dict(geometry=5 - p['geometry']))]
+    elif name == 'Kenamond2':
+        p, cls = k2_params(rng, equal=False), K2
+        i = rng.randrange(4)
+        dets, td = list(p['dets']), list(p['t_d'])
+        dets[i] = math.copysign(p['R'] * rng.choice([1.0, rng.uniform(0.0, 1.0)]), dets[i])
+        j = i if i < 2 else i + 1
+        td[j] = p['t_d'][2] + p['R'] * (1 / p['D1'] + 1 / p['D2']) - abs(p['dets'][i]) / p['D2'] - 1e-9 - amount
+        viol = [('R>0', dict(R=-amount)), ('D1>0', dict(D1=-amount)), ('D2>0', dict(D2=-amount)),
+                ('D1>D2', dict(D1=p['D2'] * rng.uniform(0.1, 0.999))), ('detonator-in-outer-region', dict(dets=dets)),
+                ('timing', dict(t_d=td)), ('geometry', dict(geometry=rng.choice([0, 1, 4, 2.5]))),
+                ('len(dets)=4', dict(dets=p['dets'][:3])), ('len(t_d)=5', dict(t_d=p['t_d'] + [0.0]))]
+    elif name == 'Kenamond3':
+        p, cls = k3_params(rng), K3
+        lod = norm(p['x_d'])
+        s = rng.uniform(0.0, 0.999) * p['R'] / lod
+        # exactly on the obstacle: an axis-aligned detonator, whose norm is R without rounding
+        viol = [('R>0', dict(R=-amount)), ('D>0', dict(D=-amount)),
+                ('detonator-outside-obstacle', dict(x_d=[s * u for u in p['x_d']] if rng.random() < 0.7 else
+                                                    [0.0] * (p['geometry'] - 1) + [p['R']])),
+                ('geometry', dict(geometry=rng.choice([0, 1, 4, 2.5]))), ('len(x_d)=geometry', dict(geometry=5 - p['geometry']))]
+    else:
+        p, cls = dsd_params(rng), DSD
+        p['geometry'] = 2
+        viol = [('r_1>0', dict(r_1=-amount)), ('r_2>r_1', dict(r_2=p['r_1'] * rng.choice([1.0, rng.uniform(0.0, 1.0)]))),
+                ('D_CJ_1>0', dict(D_CJ_1=-amount)), ('D_CJ_2>0', dict(D_CJ_2=-amount)),
+                ('alpha_1>=0', dict(alpha_1=-1e-9 - amount)), ('alpha_2>=0', dict(alpha_2=-1e-9 - amount)),
+                ('geometry', dict(geometry=rng.choice([0, 1, 3, 2.5])))]
+    if rng.random() < 0.3:
+        return dict(cls=cls, name=name, params=p, expect='accept', what='random-valid')
+    what, over = rng.choice(viol)
+    return dict(cls=cls, name=name, params=dict(p, **over), expect='reject', what=what)
+
+
 def catalogue_oracle(names, sites=None, exclude=()):
     """constructor catalogue restricted to the classes `names`; `sites` keeps only those restrictions"""
     entries = [e for e in CATALOGUE if e['name'] in names and (sites is None or e['what'] in sites)
                and e['what'] not in exclude]
+    state = {'i': 0}
 
     def gen(rng):
-        return rng.choice(entries)
+        # first the fixed catalogue (defaults x {violating, boundary}), then random valid / singly-violating sets
+        i = state['i']
+        state['i'] += 1
+        if i < len(entries) or sites is not None:
+            return entries[i % len(entries)]
+        return _random_entry(rng, rng.choice(names))
 
     def check(e):
         r = _construct(e['cls'], e['params'])
@@ -703,7 +750,7 @@ def _init_cases(rng, n):
     def pick(vals):
         return rng.choice(vals)
     for _ in range(n):
-        g = pick([2.0, 3.0, 2.0, 3.0, 1.0, 4.0, 2.5])
+        g = pick([2.0, 3.0, 2.0, 3.0, 2.0, 3.0, 2.0, 3.0, 1.0, 4.0, 2.5])
         for m, cls, ln in (('K1Init2', K1, 2), ('K1Init3', K1, 3)):
             v = dict(geometry=g, D=pick([1.0, rng.uniform(0.1, 3), 0.0, -1.0]))
             kw = dict(geometry=int(g) if g == int(g) else g, D=v['D'], x_d=vec(rng, ln, -3, 3))
